@@ -632,6 +632,7 @@ class Gen:
                         toks.append(L(s))
                         sels.append(["int", v])
                     elif sk == "case.int.neg":
+                        self.atom("int.negative")
                         s, v = self.dec_text(1, 100)
                         toks += [O("-"), L(s, True)]
                         sels.append(["int", -v])
